@@ -3,6 +3,7 @@
 
 import types
 import inspect
+import itertools
 import hashlib
 import linecache
 
@@ -32,6 +33,14 @@ def get_fb(f, drop_self=True):
     if drop_self and isinstance(f, types.MethodType):
         ret.args = ret.args[1:]  # discard "self" on methods
     return ret
+
+
+def _get_posonly_names(f):
+    try:
+        sig_params = inspect.signature(f).parameters.values()
+    except (TypeError, ValueError):
+        return []
+    return [p.name for p in sig_params if p.kind is p.POSITIONAL_ONLY]
 
 
 def get_callable_name(f):
@@ -124,10 +133,13 @@ def build_chain_str(funcs, params, inner_name, params_sofar=None, level=0,
 
     params_sofar.update(params[0])
     inner_args = get_fb(funcs[0]).get_arg_names()
-    inner_arg_dict = dict([(a, a) for a in inner_args])
+    # positional-only parameters can only be passed by position
+    posonly_args = _get_posonly_names(funcs[0])
+    pos_args = list(itertools.takewhile(params_sofar.__contains__, posonly_args))
+    inner_arg_dict = dict([(a, a) for a in inner_args if a not in posonly_args])
     inner_arg_items = sorted(inner_arg_dict.items())
-    inner_args = ', '.join(['%s=%s' % kv for kv in inner_arg_items
-                           if kv[0] in params_sofar])
+    inner_args = ', '.join(pos_args + ['%s=%s' % kv for kv in inner_arg_items
+                                       if kv[0] in params_sofar])
     outer_indent = _INDENT * level
     inner_indent = outer_indent + _INDENT
     outer_arg_str = ', '.join(params[0])
